@@ -353,6 +353,54 @@ impl Check for C11 {
             Tier::Thorough => vec![("text", 600_000, 500), ("script", 1_500_000, 400), ("interp", 800_000, 500), ("psbt", 150_000, 600), ("plan", 500_000, 500), ("compile", 60_000, 400), ("big", 2_000, 50)],
         }
     }
+    fn replay_raw(&self, kind: &str, data: &[u8]) -> Option<Result<(), Failure>> {
+        let mut rep = Report::default();
+        match kind {
+            "rawtext" => Some(match std::str::from_utf8(data) {
+                Ok(s) => text_target(s, &mut rep).and_then(|_| compile_target(s, &mut rep)),
+                Err(_) => Ok(()),
+            }),
+            "rawscript" => Some(script_target(data, &mut rep)),
+            _ => None,
+        }
+    }
+    fn extra(&self, _tier: Tier, st: &mut crate::runner::Stats, known: &dyn Fn(&str) -> bool, _threads: usize) -> Result<serde_json::Value, Failure> {
+        // regression tier for raw fuzzer inputs and the committed seed corpora
+        let dir = std::env::var("MVH_VERIF_DIR").unwrap_or_else(|_| "/verif".to_string());
+        let mut n = 0u64;
+        for (sub, kind) in [("replays", ""), ("corpus/parse_all", "rawtext"), ("corpus/decode_script", "rawscript")] {
+            let d = format!("{}/{}", dir, sub);
+            let mut files: Vec<std::path::PathBuf> = match std::fs::read_dir(&d) {
+                Ok(rd) => rd.filter_map(|e| e.ok()).map(|e| e.path()).collect(),
+                Err(_) => continue,
+            };
+            files.sort();
+            for f in files {
+                let name = f.to_string_lossy().to_string();
+                let k = if !kind.is_empty() {
+                    kind
+                } else if name.ends_with(".rawtext") {
+                    "rawtext"
+                } else if name.ends_with(".rawscript") {
+                    "rawscript"
+                } else {
+                    continue;
+                };
+                if let Ok(data) = std::fs::read(&f) {
+                    n += 1;
+                    if let Some(Err(fl)) = self.replay_raw(k, &data) {
+                        if known(&fl.sig) {
+                            st.note_known(&fl.sig);
+                        } else {
+                            return Err(Failure { sig: fl.sig, msg: format!("{} (raw input file {})", fl.msg, name) });
+                        }
+                    }
+                }
+            }
+        }
+        st.evaluations += n;
+        Ok(serde_json::json!({"raw_inputs_replayed": n}))
+    }
     fn run_case(&self, lane: &str, src: &mut Src, rep: &mut Report) -> Result<(), Failure> {
         match lane {
             "text" | "compile" => {
